@@ -512,15 +512,32 @@ func curlPermFns(c *Ctx) (method, perm, generic *ssa.Function) {
 		}
 		return
 	}
-	n := 0
+	var cands []*ssa.Function
 	for fn := range ssautil.AllFunctions(c.P.SSA) {
 		if fn.Pkg == perm.Pkg && fn != perm && fn.Parent() == nil && fn.Blocks != nil && fn.Synthetic == "" && sigKey(fn) == permSig {
-			generic = fn
-			n++
+			cands = append(cands, fn)
 		}
 	}
-	if n != 1 {
-		generic = nil
+	// the portable implementation may delegate one round to a helper of the same shape: take the candidate no other candidate calls
+	var roots []*ssa.Function
+	for _, f := range cands {
+		called := false
+		for _, g := range cands {
+			if g == f {
+				continue
+			}
+			for _, ci := range ana.Calls(g) {
+				if ci.Common().StaticCallee() == f {
+					called = true
+				}
+			}
+		}
+		if !called {
+			roots = append(roots, f)
+		}
+	}
+	if len(roots) == 1 {
+		generic = roots[0]
 	}
 	return
 }
